@@ -31,7 +31,8 @@ def key_fn(ev, clause):
     if ev['ev'] == 'run':
         if clause == 'Inv_C12_Total_NoRaise':
             return '%s|%s|generate_commands(kwargs=%s)' % (clause, ev['raised'], 'None' if ev['cfg']['kwargs'] == 'none' else '{}')
-        return '%s|obtain_counts|pool=%s,usekey=%s,bams=%s' % (clause, ev['pool'], ev['cfg']['usekey'], ev.get('bam', {}).get('nfiles', 1))
+        return '%s|obtain_counts|pool=%s,usekey=%s,bams=%s,kwargs=%s%s' % (clause, ev['pool'], ev['cfg']['usekey'], ev.get('bam', {}).get('nfiles', 1),
+                                                                  ev['cfg']['kwargs'], ',differing_headers' if ev.get('bam', {}).get('hetero') else '')
     improper = any(not r['proper'] for r in ev.get('bam', {}).get('recs', []))
     return '%s|regions=%s|%s' % (clause, ev['regions'], 'improper_pairs_present' if improper else 'proper_pairs_only')
 
@@ -75,6 +76,8 @@ def run(tier):
     c.mc_negative('BinCounts', 'MC_BinCounts_impl_plain_update_q.cfg', expect_inv=['Inv_C12_Matrix', 'Inv_C12_Invariant', 'Inv_C12_Total'],
                   workers=4)
     c.mc_negative('BinCounts', 'MC_BinCounts_impl_r1only_read2_q.cfg', expect_inv=['Inv_C12_Matrix', 'Inv_C12_Invariant', 'Inv_C12_Total'],
+                  workers=4)
+    c.mc_negative('BinCounts', 'MC_BinCounts_impl_ignore_qcfail_q.cfg', expect_inv=['Inv_C12_Matrix', 'Inv_C12_Invariant', 'Inv_C12_Total'],
                   workers=4)
     c.mc_negative('BinCounts', 'MC_BinCounts_impl_kwargs_none_q.cfg', expect_inv=['Inv_C12_Total_NoRaise'], workers=4)
     c.mc_negative('BinCounts', 'MC_BinCounts_impl_own_fetch_q.cfg', expect_inv=['Inv_C12_Matrix', 'Inv_C12_Invariant', 'Inv_C12_Total'],
